@@ -19,7 +19,11 @@ RULE = ("cases: random trees 2..6 nodes; 'equality' cases: states with bonds = S
         "both integrators x both copy strategies vs dense reference BUG; 'contract' cases: arbitrary bonds incl. "
         "redundant ones, 2 steps, truncation grid for the rank-adaptive variant; saturated two-node cases; plus real "
         "TTNS/TTNO pairs on random trees with 2..7 nodes whose cache reads during one BUG / FixedBUG step (tagged old / "
-        "new) are compared with the environment machine. "
+        "new) are compared with the environment machine; plus the input-space audit families (one-node trees, non-diagonal "
+        "TTNOs, caller states already canonical at the root / elsewhere, default configuration objects, Chebyshev / sparse "
+        "modes, real / integer / single-precision tensors, magnitudes 1e-8..1e8 with tolerances relative to the data, "
+        "physical dimension 1, prefix identifiers, read-only tensors, reset / setter histories, a second consecutive "
+        "fixed-rank step against the reference). "
         "non-trivial = distinct (shape, integrator, copy strategy, seed) with >= 3 nodes or a two-node exactness case")
 PARTIAL = ["step-equality with the scheme is decided per input against the dense reference (no universal theorem). Proved "
            "around it: the update order (Tree.updates_perm, updates_nodup, root_last, Tree.child_before_parent, "
@@ -99,7 +103,66 @@ def gen_cases(ctx):
     for _ in range(ctx.n(20, 80)):
         cases.append({"kind": "saturated", "seed": rng.randrange(10 ** 9), "algo": rng.choice(["bug", "fixedbug"]),
                       "deep": rng.random() < 0.5, "d": rng.choice([2, 3])})
+    cases += audit_cases(ctx)
     return cases
+
+
+def audit_cases(ctx):
+    """Input-space audit families (notes/C09.md); the keys are those of harness/props/c05.py (`specialise`)."""
+    rng = ctx.subrng("audit9")
+    out = []
+
+    def shape(nmax=5):
+        return gen.random_parent_array(rng, rng.choice([m for m in (2, 3, 3, 4, 4, 5) if m <= nmax]))
+
+    def add(fam, kind, par, **kw):
+        out.append(dict({"kind": kind, "par": par, "seed": rng.randrange(10 ** 9), "fam": fam,
+                         "algo": rng.choice(["bug", "fixedbug"]), "deep": rng.random() < 0.5, "steps": 2,
+                         "svd": None, "fullrank": kind == "equality" or rng.random() < 0.6}, **kw))
+
+    for kind in ("equality", "contract"):
+        for _ in range(ctx.n(3, 10)):
+            add("one-node", kind, [-1], phys=[rng.choice([2, 3, 5])])
+        for _ in range(ctx.n(6, 30)):
+            par = rng.choice(gen.HARD_SHAPES[:3] + [shape(), shape(), shape()])
+            add("generic-ttno", kind, par, ttno="generic", **({"phys": [2]} if len(par) > 5 else {}))
+        for _ in range(ctx.n(8, 30)):
+            # a root with several children and the centre below one of them: the other children then see a parent-side
+            # environment that is not isometric unless the constructor really moves the centre to the root
+            par = rng.choice([[-1, 0, 0], [-1, 0, 0, 1], [-1, 0, 0, 0], [-1, 0, 1, 0], [-1, 0, 0, 1, 2], shape()])
+            add("pregauged", kind, par, pregauge=rng.choice(["KEEP", "REDUCED"]),
+                gauge_at=rng.choice(["root", "nonroot", "nonroot", "nonroot"]), ttno=rng.choice([None, "generic"]))
+        for algo in ("bug", "fixedbug"):
+            for cfg in ["none", "chebyshev", "sparse", "fastest"]:
+                for _ in range(ctx.n(1, 3)):
+                    add("config", kind, shape(4), cfg=cfg, algo=algo)
+            for dtype in ["real", "int", "single", "csingle"]:
+                for _ in range(ctx.n(1, 3)):
+                    # physical dimension above twice the bond dimension: the augmented leaf basis [old, evolved] is
+                    # then a proper subspace, so a wrong evolved tensor changes the result
+                    add("dtype", kind, shape(3), dtype=dtype, algo=algo, phys=[5])
+            for ss, hs in [(1e-8, 1.0), (1e8, 1.0), (1.0, 1e-6), (1.0, 1e3), (1e-8, 1e-6), (1e8, 1e3), (1e-150, 1.0)]:
+                add("magnitude", kind, shape(4), sscale=ss, hscale=hs, algo=algo, phys=[3, 3, 2])
+            add("magnitude", kind, shape(4), zero=True, algo=algo)
+        for _ in range(ctx.n(3, 12)):
+            add("phys1-names", kind, shape(), phys=[1, 2, 1, 3], names="prefix")
+        for _ in range(ctx.n(2, 8)):
+            add("read-only", kind, shape(4), readonly=True)
+    for _ in range(ctx.n(6, 30)):
+        add("second-step", "equality", shape(), algo="fixedbug", second=True)
+    for hist in [{"reset_after": 1, "retime_after": 1, "retime_n": 3}, {"setn_after": 1, "setn": 7},
+                 {"retime_after": 0, "retime_n": 2, "reset_after": 2}, {"reset_after": 1, "pregauge": "KEEP",
+                                                                        "gauge_at": "nonroot"}]:
+        for algo in ("bug", "fixedbug"):
+            add("history", "contract", shape(4), steps=3, algo=algo, **hist)
+    for extra in [{"sscale": 1e-8}, {"sscale": 1e8}, {"hscale": 1e-6}, {"hscale": 1e3}, {"dtype": "real"},
+                  {"dtype": "int"}, {"cfg": "none"}, {"cfg": "chebyshev"}, {"cfg": "sparse"}, {"steps": 3},
+                  {"steps": 2, "reset_after": 1}, {"names": "prefix"}, {"pregauge": "KEEP"}, {"pregauge": "REDUCED"},
+                  {"readonly": True}, {"ttno": "generic"}, {"retime": 2}, {"rootfirst": False}]:
+        for algo in ("bug", "fixedbug"):
+            out.append(dict({"kind": "saturated", "seed": rng.randrange(10 ** 9), "algo": algo,
+                             "deep": rng.random() < 0.5, "d": rng.choice([2, 3]), "fam": "saturated-audit"}, **extra))
+    return out
 
 
 def run(ctx):
@@ -151,13 +214,27 @@ class OrderRecorder(c05.Recorder):
 
 
 def _make_state(case, want_schmidt):
+    """Legacy keys: par, seed.  Audit keys (shared with harness/props/c05.py): names, phys, ttno, dtype, sscale, hscale,
+    pregauge + gauge_at, readonly.  Returns None if no state with bonds = Schmidt ranks was found."""
     rng = random.Random(case["seed"])
     nprng = np.random.default_rng(case["seed"])
     par = case["par"]
     n = len(par)
+    real = case.get("dtype") in ("real", "int", "single")
+    realH = case.get("dtype") in ("int", "single")      # dtype "real": real state, complex Hamiltonian
+    kw = {}
+    if case.get("names"):
+        kw["names"] = {i: c05.NAME_SETS[case["names"]][i] for i in range(n)}
+    if real:
+        kw["complex_"] = False
+    phys_choices = tuple(case.get("phys") or (2, 3))
     for attempt in range(30):
         bonds = (1, 2, 2, 3) if attempt < 15 else (1, 2)
-        ttns, info = gen.random_ttns(rng, nprng, par, phys=(2, 3), bonds=bonds if want_schmidt else (1, 2, 3, 4))
+        ttns, info = gen.random_ttns(rng, nprng, par, phys=phys_choices, bonds=bonds if want_schmidt else (1, 2, 3, 4),
+                                     **kw)
+        if case.get("dtype") == "int":
+            for nid in list(ttns.nodes):
+                ttns.replace_tensor(nid, c05._cast(ttns.tensors[nid], "int"))
         order = sorted(ttns.nodes)
         if not want_schmidt or schmidt_ranks_equal(ttns, order):
             break
@@ -165,8 +242,65 @@ def _make_state(case, want_schmidt):
         return None
     names = info["names"]
     phys = {i: info["open"][i][0] for i in range(n)}
-    H, Hm = algos.hermitian_ttno(rng, nprng, par, phys, names, n_terms=rng.randint(1, 3))
+    hs = case.get("hscale") or 1.0
+    if case.get("ttno") == "generic":
+        H, Hm = c05.generic_ttno(rng, nprng, par, phys, names, True, real=realH, scale=hs)
+    else:
+        H, Hm = algos.hermitian_ttno(rng, nprng, par, phys, names, n_terms=rng.randint(1, 3), scale=hs)
+        if realH:
+            # real symmetric Hamiltonian: the real part of every tensor-product factor
+            for nid in list(H.nodes):
+                H.replace_tensor(nid, np.real(H.tensors[nid]))
+            Hm = dense.ttno_matrix(H, order).astype(complex)
+    info["tolf"] = 1.0
+    if any(case.get(k) for k in ("dtype", "sscale", "readonly", "zero")) or \
+            (case.get("pregauge") and case.get("gauge_at")):
+        Hm, info["tolf"] = c05.specialise(case, rng, ttns, H, Hm)
     return rng, nprng, ttns, info, H, Hm, order
+
+
+def make_bug(case, kind, ttns, H, dt, svd):
+    """BUG / FixedBUG through the configuration the case asks for (default: explicit EXPM config as before)."""
+    cfg = case.get("cfg")
+    if cfg is None:
+        return algos.make_algo(kind, ttns, H, dt, dt, [], deep=case["deep"], svd=dict(svd) if svd else None)
+    from pytreenet.time_evolution.time_evolution import TimeEvoMode
+    if kind == "bug":
+        from pytreenet.time_evolution.bug import BUG, BUGConfig
+        if cfg == "none":
+            return BUG(ttns, H, dt, dt, [])                  # config=None: BUGConfig() (partial copies, default truncation)
+        return BUG(ttns, H, dt, dt, [], config=BUGConfig(time_evo_mode=TimeEvoMode(cfg), deep=case["deep"],
+                                                         **(dict(svd) if svd else NO_TRUNC)))
+    from pytreenet.time_evolution.fixed_bug import FixedBUG, FixedBUGConfig
+    if cfg == "none":
+        return FixedBUG(ttns, H, dt, dt, [])
+    return FixedBUG(ttns, H, dt, dt, [], config=FixedBUGConfig(time_evo_mode=TimeEvoMode(cfg), deep=case["deep"]))
+
+
+def canonical_at_root(parent, children, tensors):
+    """Independent canonicalisation (dense QR sweeps from the leaves to the root) of a state given as parent map,
+    children lists and tensors with legs (parent, children..., physical).  The BUG step depends only on the represented
+    vector (for bonds = Schmidt ranks), so the reference may start from ANY canonical representation of the caller's
+    state; starting from our own makes the reference independent of how the library prepares its working state."""
+    T = {n: np.array(t, dtype=complex) for n, t in tensors.items()}
+    root = [n for n in parent if parent[n] is None][0]
+    order, stack = [], [root]
+    while stack:
+        x = stack.pop()
+        order.append(x)
+        stack.extend(children[x])
+    for n in reversed(order):
+        if n == root:
+            continue
+        t = T[n]
+        m = np.moveaxis(t, 0, -1)
+        shp = m.shape
+        q, r = np.linalg.qr(m.reshape(-1, shp[-1]))
+        T[n] = np.moveaxis(q.reshape(shp[:-1] + (q.shape[1],)), -1, 0)
+        p = parent[n]
+        k = (0 if parent[p] is None else 1) + children[p].index(n)
+        T[p] = np.moveaxis(np.tensordot(T[p], r, axes=([k], [1])), -1, k)
+    return T
 
 
 def _step(algo, kind, truncate=True):
@@ -256,9 +390,18 @@ def _run_one(ctx, case, rec):
     ctx.tally("integrator", kind + ("-deep" if case["deep"] else "-partial"))
     ctx.tally("nodes", n)
     ctx.tally("redundant_bond", redundant)
+    ctx.tally("audit_family", case.get("fam", "-"))
+    for key in ("ttno", "cfg", "dtype"):
+        if case.get(key):
+            ctx.tally("audit_" + key, case[key])
     ctx.sample(case, 3)
-    dt = 0.05
+    hs = case.get("hscale") or 1.0
+    dt = 0.05 / hs                          # |H| dt stays O(1): magnitude of H and step size are varied together
+    tf = info["tolf"]                       # element-type factor of all tolerances (single precision: 5e3)
     svd = case.get("svd")
+    # config=None means BUGConfig(): truncation with max_bond_dim 100 and tolerances 1e-15 (nothing of weight is cut)
+    svd_used = svd if svd else (dict(max_bond_dim=100, rel_tol=1e-15, total_tol=1e-15)
+                                if case.get("cfg") == "none" and kind == "bug" else None)
     struct0 = dense.structure(ttns)
 
     def fail(detail, exc=None):
@@ -268,18 +411,21 @@ def _run_one(ctx, case, rec):
         ctx.oracle_fail(case, detail, finding)
 
     try:
-        algo = algos.make_algo(kind, ttns, H, dt, dt, [], deep=case["deep"], svd=dict(svd) if svd else None)
+        algo = make_bug(case, kind, ttns, H, dt, svd)
     except Exception as e:              # noqa: BLE001
         fail(f"{kind}: construction raised {type(e).__name__}: {str(e)[:200]}", e)
         return None
     shapes0 = c06._shape_map(algo.state)
     probs = []
-    ctx.count((case["kind"], kind, case["deep"], tuple(case["par"]), case["seed"]), nontrivial=n >= 3)
+    ctx.count((case["kind"], kind, case["deep"], tuple(case["par"]), case["seed"], case.get("fam")),
+              nontrivial=n >= 3 or bool(case.get("fam")))
     # ---------------- equality clause
     if case["kind"] == "equality":
-        parent, children, tensors = bugref.read_state(algo.state)
+        # the reference starts from the CALLER's state (never modified by the library), canonicalised independently
+        parent, children, tensors = bugref.read_state(ttns)
         try:
-            ref = bugref.bug_step(parent, children, tensors, Hm, order, dt, fixed_rank=(kind == "fixedbug"))
+            ref = bugref.bug_step(parent, children, canonical_at_root(parent, children, tensors), Hm, order, dt,
+                                  fixed_rank=(kind == "fixedbug"))
         except Exception as e:          # noqa: BLE001
             from harness.common import HarnessError
             raise HarnessError(f"dense BUG reference failed: {type(e).__name__}: {e}")
@@ -290,9 +436,28 @@ def _run_one(ctx, case, rec):
             return None
         v1 = dense.ttns_vector(algo.state, order)
         err = np.linalg.norm(v1 - ref) / max(1e-300, np.linalg.norm(ref))
-        ctx.notes["max_equality_err"] = max(ctx.notes.get("max_equality_err", 0.0), float(err))
-        if err > 1e-7:
+        key = "max_equality_err" if tf == 1.0 else "max_equality_err_single_precision"
+        ctx.notes[key] = max(ctx.notes.get(key, 0.0), float(err))
+        if err > 1e-7 * tf:
             probs.append(f"state after one step differs from the BUG scheme's dense reference (rel. err {err:.2e})")
+        if case.get("second") and not probs and kind == "fixedbug" and schmidt_ranks_equal(algo.state, order):
+            # "several consecutive steps": the second fixed-rank step from the state the first one produced
+            ctx.tally("second_step_equality", True)
+            parent, children, tensors = bugref.read_state(algo.state)
+            try:
+                ref2 = bugref.bug_step(parent, children, canonical_at_root(parent, children, tensors), Hm, order, dt,
+                                       fixed_rank=True)
+            except Exception as e:      # noqa: BLE001
+                from harness.common import HarnessError
+                raise HarnessError(f"dense BUG reference failed: {type(e).__name__}: {e}")
+            try:
+                _step(algo, kind, truncate=False)
+            except Exception as e:      # noqa: BLE001
+                fail(f"{kind}: second step raised {type(e).__name__}: {str(e)[:200]}", e)
+                return None
+            err2 = np.linalg.norm(dense.ttns_vector(algo.state, order) - ref2) / max(1e-300, np.linalg.norm(ref2))
+            if err2 > 1e-7 * tf:
+                probs.append(f"state after the second step differs from the dense reference (rel. err {err2:.2e})")
         steps_done = 1
     else:
         seen = None
@@ -304,6 +469,14 @@ def _run_one(ctx, case, rec):
         for step in range(case["steps"]):
             tobs = TruncObserver()
             try:
+                if case.get("reset_after") == step:
+                    algo.reset_to_initial_state()
+                    v_prev = dense.ttns_vector(algo.state, order)
+                    e_prev = algos.expval_dense(v_prev, Hm)
+                if case.get("retime_after") == step:
+                    algo.set_num_time_steps_constant_final_time(case["retime_n"])
+                if case.get("setn_after") == step:
+                    algo.set_num_time_steps(case["setn"])
                 with tobs:
                     if step == 0:
                         seen = _observed_order(algo, kind, order, lambda: _step(algo, kind))
@@ -312,8 +485,8 @@ def _run_one(ctx, case, rec):
             except Exception as e:      # noqa: BLE001
                 fail(f"{kind}: step {step} did not complete: {type(e).__name__}: {str(e)[:200]}", e)
                 return None
-            if kind == "bug" and svd:
-                want = {f: svd.get(f, d) for f, d in zip(SVD_FIELDS, (100, 1e-15, 1e-15, False, False, True))}
+            if kind == "bug" and svd_used:
+                want = {f: svd_used.get(f, d) for f, d in zip(SVD_FIELDS, (100, 1e-15, 1e-15, False, False, True))}
                 if not tobs.calls:
                     probs.append(f"step {step}: the rank-adaptive step performed no truncation")
                 for c in tobs.calls:
@@ -326,21 +499,25 @@ def _run_one(ctx, case, rec):
             v = dense.ttns_vector(st, order)
             n0 = np.linalg.norm(v_prev)
             if kind == "bug" and svd is None:
-                if abs(np.linalg.norm(v) - n0) > 1e-8 * max(1.0, n0):
-                    probs.append(f"step {step}: rank-adaptive BUG norm drift {abs(np.linalg.norm(v) - n0):.2e}")
+                # tolerances relative to the data: |psi| for the norm, |H| |psi|^2 for the energy
+                if abs(np.linalg.norm(v) - n0) > 1e-8 * tf * n0:
+                    probs.append(f"step {step}: rank-adaptive BUG norm drift {abs(np.linalg.norm(v) - n0):.2e} "
+                                 f"(norm {n0:.3g})")
                 e = algos.expval_dense(v, Hm)
-                if abs(e - e_prev) > 1e-8 * max(1.0, abs(e_prev), np.linalg.norm(Hm) * n0 ** 2):
-                    probs.append(f"step {step}: rank-adaptive BUG energy drift {abs(e - e_prev):.2e}")
+                if abs(e - e_prev) > 1e-8 * tf * np.linalg.norm(Hm) * n0 ** 2:
+                    probs.append(f"step {step}: rank-adaptive BUG energy drift {abs(e - e_prev):.2e} (|H| |psi|^2 = "
+                                 f"{np.linalg.norm(Hm) * n0 ** 2:.3g})")
                 e_prev = e
             if kind == "fixedbug":
-                if np.linalg.norm(v) > n0 * (1 + 1e-9) + 1e-12:
-                    probs.append(f"step {step}: fixed-rank BUG increased the norm by {np.linalg.norm(v) - n0:.2e}")
+                if np.linalg.norm(v) > n0 * (1 + 1e-9 * tf):
+                    probs.append(f"step {step}: fixed-rank BUG increased the norm by {np.linalg.norm(v) - n0:.2e} "
+                                 f"(norm {n0:.3g})")
                 if c06._shape_map(st) != shapes0:
                     probs.append(f"step {step}: fixed-rank BUG changed tensor shapes")
-            if svd:
+            if svd_used:
                 for edge, b in st.bond_dims().items():
-                    if b > svd["max_bond_dim"]:
-                        probs.append(f"step {step}: bond {edge} = {b} > max_bond_dim {svd['max_bond_dim']}")
+                    if b > svd_used["max_bond_dim"]:
+                        probs.append(f"step {step}: bond {edge} = {b} > max_bond_dim {svd_used['max_bond_dim']}")
             v_prev = v
     # ---------------- clauses common to both kinds
     st = algo.state
@@ -353,7 +530,7 @@ def _run_one(ctx, case, rec):
         elif st.orthogonality_center_id != st.root_id:
             probs.append(f"recorded centre {st.orthogonality_center_id} is not the root {st.root_id}")
         else:
-            probs += c06.canonical_problems(st, st.root_id)
+            probs += c06.canonical_problems(st, st.root_id, 1e-8 * tf)
     if probs:
         ctx.oracle_fail(case, f"{kind} ({'deep' if case['deep'] else 'partial'} copies): " + "; ".join(probs[:4]))
         return None
@@ -433,33 +610,67 @@ def _flatleaf(ctx, case):
 
 
 def _saturated(ctx, case):
+    """Two nodes, bond = both physical dimensions: `steps` steps = exp(-iH steps*dt) psi.  Audit keys: sscale, hscale,
+    dtype, cfg, steps, reset_after, names, pregauge, readonly, ttno, retime, rootfirst."""
     from pytreenet.ttns.ttns import TreeTensorNetworkState
     rng = random.Random(case["seed"])
     nprng = np.random.default_rng(case["seed"])
     d = case["d"]
     par = [-1, 0]
-    names = {0: "a", 1: "b"}
-    ttns, *_ = gen.build_network(TreeTensorNetworkState, par, {(0, 1): d}, {0: [d], 1: [d]}, rng, nprng, names=names)
+    names = {0: "a", 1: "b"} if case.get("rootfirst", True) else {0: "b", 1: "a"}
+    if case.get("names"):
+        names = {0: c05.NAME_SETS[case["names"]][0], 1: c05.NAME_SETS[case["names"]][1]}
+    real = case.get("dtype") in ("real", "int", "single")
+    realH = case.get("dtype") in ("int", "single")      # dtype "real": real state, complex Hamiltonian
+    ttns, *_ = gen.build_network(TreeTensorNetworkState, par, {(0, 1): d}, {0: [d], 1: [d]}, rng, nprng, names=names,
+                                 complex_=not real)
+    hs = case.get("hscale") or 1.0
     terms = [{0: gen.rand_hermitian(nprng, d), 1: gen.rand_hermitian(nprng, d)}, {1: gen.rand_hermitian(nprng, d)}]
-    H, Hm = algos.ttno_from_terms(par, {0: d, 1: d}, names, terms, rng, nprng)
+    if case.get("ttno") == "generic":
+        H, Hm = c05.generic_ttno(rng, nprng, par, {0: d, 1: d}, names, True, real=realH, scale=hs)
+    else:
+        if realH or hs != 1.0:
+            terms = [{k: (np.real(o) if realH else o) * (hs if k == 1 else 1.0) for k, o in t.items()} for t in terms]
+        H, Hm = algos.ttno_from_terms(par, {0: d, 1: d}, names, terms, rng, nprng)
+        if realH:
+            for nid in list(H.nodes):
+                H.replace_tensor(nid, np.real(H.tensors[nid]))
+    tf = 1.0
+    if any(case.get(k) for k in ("dtype", "sscale", "readonly", "pregauge")):
+        Hm, tf = c05.specialise(dict(case, gauge_at=case.get("gauge_at") or "random"), rng, ttns, H, Hm)
     order = sorted(ttns.nodes)
-    v0 = dense.ttns_vector(ttns, order)
-    dt = 0.1
+    v0 = dense.ttns_vector(ttns, order).astype(complex)
+    dt = 0.1 / hs                           # |H| dt stays O(1): magnitude of H and step size are varied together
     kind = case["algo"]
-    ctx.count(("sat", kind, case["seed"]), nontrivial=True)
+    steps = case.get("steps", 1)
+    ctx.count(("sat", kind, case["seed"], case.get("fam")), nontrivial=True)
     ctx.tally("kind", "saturated")
+    if case.get("fam"):
+        ctx.tally("saturated_audit", next(f"{k}={case[k]}" for k in ("sscale", "hscale", "dtype", "cfg", "steps", "names",
+                                                                  "pregauge", "readonly", "ttno", "retime", "rootfirst")
+                                          if k in case))
     try:
-        algo = algos.make_algo(kind, ttns, H, dt, dt, [], deep=case["deep"])
-        algo.run_one_time_step()
+        algo = make_bug(case, kind, ttns, H, dt, None)
+        if case.get("retime"):
+            algo.set_num_time_steps_constant_final_time(case["retime"])
+            dt = algo.time_step_size
+        done = 0
+        for step in range(steps):
+            if case.get("reset_after") == step:
+                algo.reset_to_initial_state()
+                done = 0
+            algo.run_one_time_step()
+            done += 1
         v1 = dense.ttns_vector(algo.state, order)
     except Exception as e:              # noqa: BLE001
         ctx.oracle_fail(case, f"{kind} saturated two-node: raised {type(e).__name__}: {str(e)[:200]}")
         return
     w, U = np.linalg.eigh(Hm)
-    ref = (U * np.exp(-1j * w * dt)) @ (U.conj().T @ v0)
-    err = np.linalg.norm(v1 - ref) / max(1.0, np.linalg.norm(ref))
-    if err > 1e-9:
-        ctx.oracle_fail(case, f"{kind} saturated two-node step differs from exp(-iH dt) psi (rel. err {err:.2e})")
+    ref = (U * np.exp(-1j * w * dt * done)) @ (U.conj().T @ v0)
+    err = np.linalg.norm(v1 - ref) / np.linalg.norm(ref)
+    if err > 1e-9 * tf:
+        ctx.oracle_fail(case, f"{kind} saturated two-node: {done} step(s) differ from exp(-iH t) psi (rel. err "
+                              f"{err:.2e}, |psi| = {np.linalg.norm(ref):.3g})")
 
 
 def shrink(case):
